@@ -146,7 +146,7 @@ def parse_rules(chk, m):
         h.keep = lambda ev: False
         h.lookup = lambda interp, nm, state: None
         h.should_inline = A.helpers_anywhere
-        it = A.Interp(model=m, scope=pf, hooks=h, max_iter=80, exc_edges=False, heap=True, precise_exc=True, inline=2)
+        it = A.Interp(model=m, scope=pf, hooks=h, max_iter=80, exc_edges=False, heap=True, precise_exc=True, inline=5)
         it.max_unroll = 90
         try:
             outs = it.run_function(pf, env={'self': A.Obj('f', {}, cls=cls), 'spec': spec})
